@@ -706,6 +706,11 @@ def simplify_call(path, args, trait_path=None):
     if path in ("std::result::Result::unwrap", "std::result::Result::<T, E>::unwrap", "core::result::Result::unwrap") or path.endswith("Result::unwrap") or path.endswith("Result::expect"):
         if args and args[0][0] == "call" and args[0][1] == "stdcode::serialize" and len(args[0][2]) == 1:
             return ("call", "stdcode::StdcodeSerializeExt::stdcode", (args[0][2][0],))
+    if path.endswith("FromIterator>::from_iter") or (tp or "").endswith("FromIterator::from_iter") or path.split("::")[-1] == "from_iter" and "FromIterator" in path:
+        if len(args) == 1:
+            return ("call", "std::iter::Iterator::collect", (args[0],))          # `C::from_iter(it)` is `it.collect::<C>()`
+    if path.split("::")[-1] == "unwrap_or_else" and ("Option" in path or "Result" in path) and len(args) == 2 and args[1][0] == "fn" and args[1][1].endswith("Default>::default"):
+        return ("call", path[:-len("unwrap_or_else")] + "unwrap_or_default", (args[0],))          # `.unwrap_or_else(T::default)` is `.unwrap_or_default()`
     if path in ("std::mem::replace", "core::mem::replace") and len(args) == 2:
         return args[0]                  # the value of `mem::replace(&mut x, v)` is x as it was before the call (the write is seen by K7)
     if path in ("std::mem::take", "core::mem::take") and len(args) == 1:
